@@ -73,30 +73,43 @@ func (d *DebugDialer) Dial(ctx context.Context, urlstr string) (conn net.Conn, b
 		// We must split response inside buffered bytes from other received
 		// bytes from server.
 		p := resBuf.Bytes()
-		n := bytes.Index(p, headEnd)
-		h := n + len(headEnd)         // Head end index.
-		n = h + int(resContentLength) // Body end index.
+		h := len(p) // Head end index.
+		if n := bytes.Index(p, headEnd); n != -1 {
+			h = n + len(headEnd)
+		} else if n := bytes.Index(p, headEndLF); n != -1 {
+			// Peer uses bare LF as a line terminator.
+			h = n + len(headEndLF)
+		}
+		n := h + int(resContentLength) // Body end index.
+		if n > len(p) {
+			n = len(p)
+		}
 
 		onResponse(p[:n])
 
-		if br != nil {
-			// If br is non-nil, then it mean two things. First is that
-			// handshake is OK and server has sent additional bytes – probably
+		if rest := p[h:]; err == nil && len(rest) > 0 {
+			// Handshake is OK and server has sent additional bytes – probably
 			// immediate sent frames (or weird but possible response body).
-			// Second, the bad one, is that br buffer's source is now rwConn
-			// instance from above WrapConn call. It is incorrect, so we must
-			// fix it.
-			var r io.Reader = conn
-			if len(p) > h {
-				// Buffer contains more than just HTTP headers bytes.
-				r = io.MultiReader(
-					bytes.NewReader(p[h:]),
-					conn,
-				)
+			// These bytes were prefetched from the connection into the
+			// buffer above, so they must be returned to the caller inside
+			// br, whose source must be the raw connection again (and not the
+			// rwConn instance from above WrapConn call).
+			r := io.MultiReader(
+				bytes.NewReader(rest),
+				conn,
+			)
+			if br == nil || br.Size() < len(rest) {
+				// All prefetched bytes must become buffered ones: caller
+				// reads the connection directly after draining br.
+				if br != nil {
+					ws.PutReader(br)
+				}
+				br = bufio.NewReaderSize(r, len(rest))
+			} else {
+				br.Reset(r)
 			}
-			br.Reset(r)
 			// Must make br.Buffered() to be non-zero.
-			br.Peek(len(p[h:]))
+			br.Peek(len(rest))
 		}
 	}
 
@@ -118,7 +131,10 @@ func (rwc rwConn) Write(p []byte) (int, error) {
 	return rwc.w.Write(p)
 }
 
-var headEnd = []byte("\r\n\r\n")
+var (
+	headEnd   = []byte("\r\n\r\n")
+	headEndLF = []byte("\n\n")
+)
 
 type prefetchResponseReader struct {
 	source io.Reader // Original connection source.
